@@ -75,6 +75,30 @@ def census_case(ctx, acc, case, original_fn, scfg, src_for_s2a):
             acc.hist("names_read_beyond_original", n)
     except Viol as v:
         ctx.viol(v)
+    # history: code generation must not consume or alter the graph - a second
+    # call on the same graph passes the same census and gives the same text
+    from ..hier import dump
+    before = dump(scfg, with_payload=True)
+    ctx.data.pop("s2a_calls", None)
+    try:
+        fdef2 = SCFG2AST(src_for_s2a, scfg)
+        st2, out2 = census.check_census(original_fn, scfg, fdef2, stamped,
+                                        ctx.data.get("s2a_calls"))
+        acc.counters["second_codegen_passes"] += 1
+        try:
+            first_text = ast.unparse(ast.fix_missing_locations(fdef))
+        except Exception:
+            first_text = None
+        if first_text is not None and out2 != first_text:
+            ctx.violation("C10", "second_codegen_of_same_graph_differs",
+                          {"first": first_text[:600], "second": out2[:600]})
+    except Viol as v:
+        ctx.violation("C10", "second_codegen:" + v.kind, v.detail)
+    except NotImplementedError:
+        ctx.violation("C10", "second_codegen_refused", None)
+    except Exception as e:
+        k = exc_key(e)
+        ctx.violation("C10", f"second_codegen_raised:{k['type']}@{k['site']}", k)
     f = features(ctx, scfg, "JLB")
     return f["regions"] > 0 and (len(stamped[0]) + len(stamped[1])) >= 3
 
